@@ -5,7 +5,7 @@ ID = "C19"
 BOUNDS = {
     "quick": "n an unbounded symbolic int (all negatives are one path class; concretised in 0..3*len+2, larger n is one aborted class) plus the non-integers "
              "{2.0, '2', None, True}; well collections: lists of 1, 3, 4 opaque ids, 1-D arrays, 2-D arrays 2x2 and 2x3 (stand-in arrays), an empty list, "
-             "a trough's `wells` attribute and a column slice",
+             "a trough's `wells` attribute and a column slice; plus, by concrete execution on the real numpy, n in {255..257, 300, 511..513, 1000, 32767, 32768, 65535..65537, 70000} for five of the collections",
     "thorough": "lists up to 8, 2-D arrays up to 3x4 and 8x1",
 }
 OUTSIDE = "n above 3*len+2 for the listed collections (the function is uniform in n: repeat + truncate)"
@@ -19,8 +19,15 @@ def colls(tier):
     return out
 
 
+BIG_N = [255, 256, 257, 300, 511, 512, 513, 1000, 32767, 32768, 65535, 65536, 65537, 70000]
+
+
 def shards(tier):
-    return [dict(coll=list(cl), nkind=nk) for cl in colls(tier) for nk in ("sym", "other")]
+    out = [dict(coll=list(cl), nkind=nk) for cl in colls(tier) for nk in ("sym", "other")]
+    # large n around the widths of fixed-size integers (concrete execution on the real numpy; the symbolic shards concretise n <= 3*len+2)
+    for cl in [("list", 3, 1), ("list", 1, 1), ("arr2", 2, 3), ("troughcol", 4, 2), ("trough", 4, 2)] + ([("list", 7, 1), ("arr2", 3, 4)] if tier == "thorough" else []):
+        out.append(dict(coll=list(cl), nkind="big", concrete=True))
+    return out
 
 
 def engine_opts(p, tier):
@@ -61,6 +68,8 @@ def scenario(ctx, p):
             colmajor = [f"{'ABCDEFGH'[r]}02" for r in range(a)]
     if p["nkind"] == "sym":
         n = ctx.int("n")
+    elif p["nkind"] == "big":
+        n = ctx.choose("n", BIG_N)
     else:
         n = ctx.choose("n", [2.0, "2", None, True])
     ctx.ctx.update(n=n, colmajor=colmajor)
@@ -87,6 +96,19 @@ def judge(ctx, p, outcome):
         return
     c = ctx.ctx
     n, cm = c["n"], c["colmajor"]
+    if p["nkind"] == "big":
+        if kind == "exc":
+            ctx.violate(f"C19: a valid request was rejected ({type(val).__name__}: {val})")
+            return
+        res = [str(w) for w in val]
+        ctx.reach("ok:wrapped")
+        if len(res) != n:
+            ctx.violate("C19: the result does not have exactly n elements")
+            return
+        bad = [i for i, w in enumerate(res) if w != cm[i % len(cm)]]
+        if bad:
+            ctx.violate("C19: an element is not the (i mod len)-th well in column-major order", info=f"first at index {bad[0]}: {res[bad[0]]!r} instead of {cm[bad[0] % len(cm)]!r}")
+        return
     if p["nkind"] != "sym":
         if kind == "ok" and n is not True:
             ctx.violate(f"C19: non-integer n={n!r} accepted")
